@@ -3,7 +3,7 @@
  "name": "array_update_map",
  "props": ["C15", "C06"],
  "level": "B(3)",
- "tier": "wip",
+ "tier": "thorough",
  "harness": "h_array_update_map",
  "replace": ["find_ea_index", "xattr_update_entry"],
  "unwind": 8,
@@ -22,7 +22,7 @@
  "name": "array_update_map_full",
  "props": ["C15", "C06"],
  "level": "B(4)",
- "tier": "wip",
+ "tier": "quick",
  "harness": "h_array_update_map",
  "defines": ["XAT_MAP_FULL"],
  "replace": ["find_ea_index", "xattr_update_entry"],
